@@ -1,5 +1,7 @@
 """C14 invalid input is rejected cleanly - weird-operand / perturbed-field / invalid-argument histories on the real
-emitters (harness/c14_invalid.cpp, ASan+UBSan) + a disassembler leg over everything that was accepted."""
+emitters (harness/c14_invalid.cpp, ASan+UBSan; every unit runs in a forked child) + a disassembler leg: whatever the
+Assembler ACCEPTED is decoded by GNU objdump (x86) / llvm-mc (AArch64) and must be exactly one instruction that
+consumes all bytes and names no extended register / memory component that was not requested."""
 import os, re, subprocess, glob
 
 from lib import runner
@@ -7,6 +9,301 @@ from lib import runner
 LEVEL = "exploration"
 SRC = "harness/c14_invalid.cpp"
 TAG = "c14_invalid"
+MAX_KEYS_PER_FAMILY = 12      # distinct keys reported per (arch, emitter, call kind, clause); the rest is folded into ':more'
+
+SLOT = 32
+PAD = b"\xcc"
+
+
+def _unesc(s):
+    out, i = [], 0
+    while i < len(s):
+        if s[i] == "\\" and i + 1 < len(s):
+            out.append("\n" if s[i + 1] == "n" else s[i + 1])
+            i += 2
+        else:
+            out.append(s[i])
+            i += 1
+    return "".join(out)
+
+
+def _read_acc(paths):
+    """-> list of dict(arch, hex, req, desc, replay), de-duplicated on (arch, hex, req)."""
+    seen, out = set(), []
+    for p in sorted(paths):
+        if not os.path.exists(p):
+            continue
+        with open(p, "r", errors="replace") as f:
+            for line in f:
+                q = _unesc(line.rstrip("\n")).split("\x1f")
+                if len(q) < 5:
+                    continue
+                k = (q[0], q[1], q[2])
+                if k in seen:
+                    continue
+                seen.add(k)
+                out.append(dict(arch=q[0], hex=q[1], req=q[2], desc=q[3], replay=q[4]))
+    return out
+
+
+# ---------------------------------------------------------------------------------------------------------------
+# x86: GNU objdump
+# ---------------------------------------------------------------------------------------------------------------
+_G64 = ["rax", "rcx", "rdx", "rbx", "rsp", "rbp", "rsi", "rdi"]
+_G32 = ["eax", "ecx", "edx", "ebx", "esp", "ebp", "esi", "edi"]
+_G16 = ["ax", "cx", "dx", "bx", "sp", "bp", "si", "di"]
+_G8 = ["al", "cl", "dl", "bl", "spl", "bpl", "sil", "dil"]
+_REGNUM = {}
+for _i in range(8):
+    for _t in (_G64, _G32, _G16, _G8):
+        _REGNUM[_t[_i]] = _i
+for _i, _n in enumerate(["ah", "ch", "dh", "bh"]):
+    _REGNUM[_n] = _i
+for _i in range(8, 32):
+    for _sfx in ("", "d", "w", "b"):
+        _REGNUM["r%d%s" % (_i, _sfx)] = _i
+_EXT = re.compile(r"\b(?:r(\d+)[dwb]?|[xyz]mm(\d+)|k(\d)|st\((\d)\)|mm(\d)|cr(\d+)|d[br](\d+)|bnd(\d)|tmm(\d))\b")
+_ADDR = re.compile(r"^\s*([0-9a-f]+):\t((?:[0-9a-f]{2} )+)\s*\t?(.*)$")
+_STRING_OPS = ("movs", "cmps", "scas", "lods", "stos", "ins", "outs", "xlat", "maskmov")
+
+
+def _req_options(req):
+    for it in req.split(";"):
+        if it.startswith("o:"):
+            return int(it[2:], 16)
+    return 0
+
+
+def _req_types(req):
+    """type signature of the request (no ids): the middle part of the violation key"""
+    out = []
+    for it in req.split(";"):
+        f = it.split(":")
+        if f[0] == "r" and len(f) >= 3:
+            out.append(f[1])
+        elif f[0] == "m" and len(f) >= 8:
+            out.append("mem[" + f[1] + ("+" + f[3] if f[3] != "none" else "") + "]")
+        elif f[0] in ("i", "l"):
+            out.append("imm" if f[0] == "i" else "label")
+        elif f[0] == "o":
+            out.append("opt" + f[1])
+    return ",".join(out) or "-"
+
+
+def _requested(req):
+    """-> (set of register numbers named anywhere, list of memory operand dicts)"""
+    nums, mems = set(), []
+    for it in req.split(";"):
+        f = it.split(":")
+        if f[0] == "r" and len(f) >= 3:
+            nums.add(int(f[2]))
+        elif f[0] == "m" and len(f) >= 8:
+            m = dict(btype=f[1], bid=int(f[2]), itype=f[3], iid=int(f[4]), shift=int(f[5]), off=int(f[6]), seg=int(f[7]))
+            mems.append(m)
+            if m["btype"] not in ("none", "label", "pc"):
+                nums.add(m["bid"])
+            if m["itype"] != "none":
+                nums.add(m["iid"])
+    return nums, mems
+
+
+def _objdump(cases, mode, workdir, tag):
+    path = os.path.join(workdir, "%s-%d.bin" % (tag, mode))
+    with open(path, "wb") as f:
+        for c in cases:
+            b = bytes.fromhex(c["hex"])
+            if len(b) > SLOT - 16:
+                b = b[:SLOT - 16]
+            f.write(b + PAD * (SLOT - len(b)))
+    cmd = ["objdump", "-D", "-b", "binary", "-m", "i386", "-M", "intel", "--insn-width=16"]
+    if mode == 64:
+        cmd += ["-M", "x86-64"]
+    r = subprocess.run(cmd + [path], stdout=subprocess.PIPE, stderr=subprocess.PIPE)
+    if r.returncode != 0:
+        raise RuntimeError("objdump failed: " + r.stderr.decode("utf-8", "replace")[-400:])
+    first = {}
+    for line in r.stdout.decode("utf-8", "replace").split("\n"):
+        m = _ADDR.match(line)
+        if not m:
+            continue
+        a = int(m.group(1), 16)
+        if a % SLOT == 0:
+            first[a // SLOT] = (len(m.group(2).split()), m.group(3).strip())
+    return first
+
+
+def _check_x86_case(c, dec):
+    """-> (what, text) for a violation, ('?', reason) when inconclusive, None when fine."""
+    nbytes = len(c["hex"]) // 2
+    if nbytes == 0:
+        return None                      # an instruction class that emits nothing is not this leg's business
+    if dec is None:
+        return ("?", "no decode")
+    n, text = dec
+    low = text.lower()
+    if "(bad)" in low or ".byte" in low or not low:
+        return ("?", "objdump does not know the encoding: " + text)
+    if n != nbytes:
+        # a trailing / leading lone prefix is printed on its own line by objdump in a few cases: inconclusive
+        if n < nbytes and low.split()[0] in ("lock", "rep", "repz", "repnz", "repe", "repne", "xacquire", "xrelease", "notrack", "cs", "ds", "es", "ss", "fs", "gs", "data16", "addr16", "addr32", "rex", "fwait", "wait", "bnd"):
+            return ("?", "prefix printed separately")
+        return ("decode-length:" + re.sub(r"[^a-z0-9.]", "_", low.split()[0]), "%d bytes were emitted but they decode as a %d-byte instruction '%s'" % (nbytes, n, text))
+    nums, mems = _requested(c["req"])
+    if _req_options(c["req"]) & 0x0F000000:
+        return None                      # kX86_OpCodeB/X/R/W: the caller asked for REX/VEX register-extension bits
+    body = low.split("#")[0]
+    for m in _EXT.finditer(body):
+        v = [g for g in m.groups() if g is not None]
+        if not v:
+            continue
+        k = int(v[0])
+        if k >= 8 and k not in nums:
+            got = set(int([g for g in mm.groups() if g is not None][0]) for mm in _EXT.finditer(body))
+            missing = sorted(set(re.findall(r"r:([a-z0-9]+:\d+)", c["req"])))
+            missing = [x.replace(":", "#") for x in missing if int(x.split(":")[1]) >= 8 and int(x.split(":")[1]) not in got]
+            return ("decode-reg:" + (",".join(missing) or "other"), "decodes as '%s' which names register number %d that no operand requested" % (text, k))
+    br = re.findall(r"\[([^\]]*)\]", body)
+    mnem = body.split()[0] if body.split() else ""
+    if mnem in ("rep", "repz", "repnz", "lock", "repe", "repne") and len(body.split()) > 1:
+        mnem = body.split()[1]
+    if len(mems) == 1 and len(br) == 1:
+        m = mems[0]
+        if m["btype"] in ("gp16", "gp32", "gp64"):
+            expr = br[0].replace("-", "+-")
+            regs = []
+            for part in expr.split("+"):
+                part = part.strip()
+                mm = re.match(r"^([a-z][a-z0-9]*)(?:\*(\d))?$", part)
+                if mm and (mm.group(1) in _REGNUM or re.match(r"^[xyz]mm\d+$", mm.group(1))):
+                    nm = mm.group(1)
+                    k = _REGNUM[nm] if nm in _REGNUM else int(re.sub(r"\D", "", nm))
+                    regs.append((k, int(mm.group(2) or 0)))
+            want = [m["bid"]] + ([m["iid"]] if m["itype"] != "none" else [])
+            got = [k for k, _ in regs]
+            form = "mem[" + m["btype"] + ("+" + m["itype"] if m["itype"] != "none" else "") + "]->[" + re.sub(r"[+-]0x[0-9a-f]+$", "", br[0].split(":")[-1].strip("[")) + "]"
+            if sorted(got) != sorted(want) and not (m["itype"] == "none" and got == [m["bid"], m["bid"]]):
+                return ("decode-mem:" + form, "requested base/index register numbers %s but the bytes decode as '%s'" % (want, text))
+            if m["itype"] != "none":
+                sc = [s for k, s in regs if s]
+                if sc and sc[0] != (1 << m["shift"]) and not (m["itype"] == "gp16"):
+                    return ("decode-mem:scale:" + form, "requested index scale %d but the bytes decode as '%s'" % (1 << m["shift"], text))
+    return None
+
+
+# ---------------------------------------------------------------------------------------------------------------
+# AArch64: llvm-mc --disassemble, cases separated by BRK #0xc14
+# ---------------------------------------------------------------------------------------------------------------
+_SEP_BYTES = "0x80 0x82 0x21 0xd4"
+_SEP_TEXT = "brk\t#0xc14"
+_A64REG = re.compile(r"(?<![\w.#])([wxbhsdqv])(\d+)\b")
+
+
+def _llvm_a64(cases):
+    lines = []
+    for c in cases:
+        h = c["hex"]
+        lines.append(" ".join("0x" + h[i:i + 2] for i in range(0, len(h), 2)))
+        lines.append(_SEP_BYTES)
+    r = subprocess.run(["llvm-mc", "--disassemble", "--triple=aarch64",
+                        "-mattr=+v8.5a,+crypto,+lse,+dotprod,+fullfp16,+fp16fml,+sha3,+sm4,+rcpc,+rdm,+aes,+sha2"],
+                       input="\n".join(lines).encode() + b"\n", stdout=subprocess.PIPE, stderr=subprocess.PIPE)
+    out, cur = [], []
+    for l in r.stdout.decode("utf-8", "replace").split("\n"):
+        t = l.strip()
+        if not t or t.startswith("."):
+            continue
+        if t.replace(" ", "\t") == _SEP_TEXT or re.sub(r"\s+", " ", t) == "brk #0xc14":
+            out.append(cur)
+            cur = []
+        else:
+            cur.append(t)
+    return out
+
+
+def _check_a64_case(c, dec):
+    if len(c["hex"]) != 8:
+        return ("decode-length", "%d bytes emitted for one AArch64 instruction" % (len(c["hex"]) // 2)) if c["hex"] else None
+    if dec is None:
+        return ("?", "no decode")
+    if len(dec) != 1:
+        return ("decode-undefined", "word %s is not a defined A64 instruction according to llvm-mc" % c["hex"])
+    text = dec[0]
+    nums, _ = _requested(c["req"])
+    body = text.split("//")[0]
+    for m in _A64REG.finditer(body):
+        k = int(m.group(2))
+        if k not in nums and not (k == 31):
+            return ("decode-reg", "decodes as '%s' which names register %s%d that no operand requested" % (re.sub(r"\s+", " ", text), m.group(1), k))
+    return None
+
+
+def disasm_leg(res, acc_paths, workdir):
+    cases = _read_acc(acc_paths)
+    viols = []
+    inconclusive = 0
+    by = {"x86-32": [], "x64": [], "a64": []}
+    for c in cases:
+        if c["arch"] in by:
+            by[c["arch"]].append(c)
+    for arch, mode in (("x86-32", 32), ("x64", 64)):
+        cs = by[arch]
+        if not cs:
+            continue
+        dec = _objdump(cs, mode, workdir, "c14acc")
+        for i, c in enumerate(cs):
+            v = _check_x86_case(c, dec.get(i))
+            if v is None:
+                continue
+            if v[0] == "?":
+                inconclusive += 1
+                continue
+            viols.append((arch, c, v))
+    cs = by["a64"]
+    if cs:
+        dec = _llvm_a64(cs)
+        for i, c in enumerate(cs):
+            v = _check_a64_case(c, dec[i] if i < len(dec) else None)
+            if v is None:
+                continue
+            if v[0] == "?":
+                inconclusive += 1
+                continue
+            viols.append(("a64", c, v))
+    res.count("accepted_decoded", len(cases))
+    res.count("accepted_decode_inconclusive", inconclusive)
+    for arch, c, (what, why) in viols:
+        name = re.sub(r"[^A-Za-z0-9_.]", "_", c["desc"].split(" ")[0])
+        if arch == "a64":
+            what += ":" + name
+        key = "invalid:%s:asm:inst:accepted-garbage:%s" % (arch, re.sub(r"\s", "", what))
+        n0 = sum(1 for v in res.violations if v["key"] == key)
+        res.add_violation(key, "%s :: accepted call: %s :: bytes %s" % (why, c["desc"], c["hex"]), c["replay"])
+        note = "disassembler leg %s: %s" % (key.split(":", 5)[-1], name)
+        if note not in res.notes and len(res.notes) < 200:
+            res.notes.append(note)
+
+
+def _fold(res):
+    """Many instructions share one defect: keep MAX_KEYS_PER_FAMILY keys per family, fold the rest."""
+    fam_count, kept, more = {}, [], {}
+    for v in res.violations:
+        parts = v["key"].split(":")
+        fam = ":".join(parts[:5])
+        n = fam_count.get(fam, 0)
+        if n < MAX_KEYS_PER_FAMILY or len(parts) <= 5:
+            fam_count[fam] = n + 1
+            kept.append(v)
+        else:
+            m = more.get(fam)
+            if m is None:
+                m = dict(key=fam + ":more", desc="further keys of this family (first: %s) %s" % (v["key"], v["desc"]), replay=v["replay"], count=0)
+                more[fam] = m
+            m["count"] += v["count"]
+    res.violations[:] = kept + list(more.values())
+
+
+def _acc_paths(tier):
+    return glob.glob(os.path.join(runner.OUT, "%s-%s-*.json.acc" % (TAG, tier)))
 
 
 def run(res, ctx):
@@ -14,13 +311,21 @@ def run(res, ctx):
     args = []
     for k, v in ctx.get("opts", {}).items():
         args += ["--" + k, v]
-    for f in glob.glob(os.path.join(runner.OUT, "%s-%s-*.json.acc" % (TAG, tier))):
+    for f in _acc_paths(tier):
         os.remove(f)
+    # sizes are CPU time (measured): quick ~35 CPU-s per shard, thorough ~4 CPU-min per shard.  The wall-clock deadlines
+    # are generous because the machine is shared; a deadline that strikes is reported as exhaustive:false.
     if tier == "quick":
-        runner.run_harness(res, SRC, "asan", tier, args=args, deadline=300, timeout=900, shards=16)
+        runner.run_harness(res, SRC, "asan", tier, args=args, deadline=1200, timeout=2400, shards=16)
     else:
-        runner.run_harness(res, SRC, "asan", tier, args=args, deadline=1500, timeout=2700, shards=16)
+        runner.run_harness(res, SRC, "asan", tier, args=args, deadline=5400, timeout=7200, shards=16)
+    disasm_leg(res, _acc_paths(tier), runner.OUT)
+    _fold(res)
 
 
 def replay(res, path, ctx):
-    runner.run_harness(res, SRC, "asan", ctx["tier"], replay=path, timeout=300)
+    tier = ctx["tier"]
+    acc = os.path.join(runner.OUT, "%s-%s-0.json.acc" % (TAG, tier))
+    runner.run_harness(res, SRC, "asan", tier, replay=path, timeout=300)
+    if os.path.exists(acc):
+        disasm_leg(res, [acc], runner.OUT)
